@@ -42,14 +42,25 @@ func vfhC08TWKBCountField() {
 }
 
 // C08 family B (WKB): header of every type and coordinate type in either byte
-// order, then a fully symbolic 4-byte count, then an arbitrary 8-byte tail.
+// order, then a fully symbolic 4-byte count, then an arbitrary tail of 8, 20 or 40 bytes.
 func vfhC08WKBCountField() {
 	gt := vfInt("type", 2, 7) // all counted types
 	ct := vfInt("ct", 0, 3)
 	code := uint32(ct*1000 + gt)
 	bo := vfInt("bo", 0, 1)
 	cnt := vfBytes("count", 4)
-	tail := vfBytes("t", 8)
+	tlen := 8
+	switch vfInt("tail", 0, 2) {
+	case 1:
+		tlen = 20 // one XY point + 4, short for one XYZ point
+	case 2:
+		tlen = 40 // two XY points + 8, short for two XYZ points
+	}
+	if tlen > 8 {
+		// the long tails are for the types whose body is raw coordinates
+		vfAssume(gt <= 3)
+	}
+	tail := vfBytes("t", tlen)
 	var buf []byte
 	if bo == 1 {
 		buf = []byte{1, byte(code), byte(code >> 8), byte(code >> 16), byte(code >> 24)}
